@@ -22,6 +22,8 @@ def deepcopy_model(eng, value):
         return SList(value.length, value.get, value.name + "_copy", value.tainted)
     if isinstance(value, S.Sym):
         return value
+    if isinstance(value, S.OptField):
+        return S.OptField(value.present, deepcopy_model(eng, value.value))
     if isinstance(value, dict):
         return {k: deepcopy_model(eng, v) for k, v in value.items()}
     if isinstance(value, list):
